@@ -31,7 +31,15 @@ def mergeLoop (close : Chunk → Chunk → Bool) : Chunk → List Chunk → List
 
 def adjClose (l r : Chunk) : Bool := decide (vOff l.e ≥ vOff r.b)
 
-def nearClose (near : Int) (l r : Chunk) : Bool := decide (l.e.file + near ≥ r.b.file)
+/-- Go's `int64` arithmetic: a result reduced to `[-2^63, 2^63)` -/
+def wrap64 (x : Int) : Int := (x + 2 ^ 63) % 2 ^ 64 - 2 ^ 63
+
+/-- `rightChunk.Begin.File-leftChunk.End.File <= near`, with the wrap-around of Go's `int64` difference
+(no wrap for file offsets in `[0, 2^63)`, whatever the threshold) -/
+def nearClose (near : Int) (l r : Chunk) : Bool := decide (wrap64 (r.b.file - l.e.file) ≤ near)
+
+/-- the comparison the documentation of `CompressorStrategy` states: distance between block starts at most `near` -/
+def nearCloseExact (near : Int) (l r : Chunk) : Bool := decide (l.e.file + near ≥ r.b.file)
 
 def identity (cs : List Chunk) : List Chunk := cs
 
